@@ -7,7 +7,7 @@ explicit ``Parent.validate_native(cls, value)`` calls; closure constants
 classes, i.e. they are whatever the working tree computes.
 """
 import ast, sys, inspect, decimal, importlib
-from .pyexpr import (BoolTranslator, TranslateError, find_function, single_return,
+from .pyexpr import (BoolTranslator, TranslateError, find_function, single_return, body_as_expr,
                      attr_chain, TRUE, FALSE)
 
 CLASSES = ['Decimal', 'Integer', 'UnsignedInteger', 'PositiveInteger',
@@ -82,7 +82,9 @@ class Ctx(object):
         args = [a.arg for a in fn.args.args]
         if args != ['cls', 'value']:
             raise TranslateError('%s.%s: unexpected signature %r' % (owner.__name__, meth, args))
-        expr = single_return(fn)
+        # guard clauses (early returns, locals that alias an expression) are read as the single
+        # expression they abbreviate: see pyexpr.body_as_expr
+        expr = body_as_expr(fn)
         me = self
 
         def is_value(n):
